@@ -258,6 +258,15 @@ func buildSandbox(dir string) (string, string) {
 		os.WriteFile(filepath.Join(cur, "sentinel.txt"), []byte(fmt.Sprintf("sentinel %d", i)), 0644)
 		os.MkdirAll(filepath.Join(cur, "victim"), 0755)
 		os.WriteFile(filepath.Join(cur, "victim", "keep"), []byte("keep"), 0644)
+		// a neighbouring download's resume metadata under the item ids the hostile sender uses
+		// (the receiver looks for metadata below <out>/<root> as a fallback location)
+		for _, d := range []string{cur, filepath.Join(cur, "victim")} {
+			md := filepath.Join(d, verifnet.ResumeDirName)
+			os.MkdirAll(md, 0755)
+			for id := 200; id < 203; id++ {
+				os.WriteFile(filepath.Join(md, fmt.Sprintf("%016x.sbxmap", id)), []byte(fmt.Sprintf("neighbour metadata %d", id)), 0644)
+			}
+		}
 	}
 	out := filepath.Join(cur, "out")
 	os.MkdirAll(out, 0755)
